@@ -131,6 +131,25 @@ BWS = (9, 10, 11, 12, 13, 32)
 
 
 class SBytes(SSeq):
+    def splitlines(self, keepends=False):
+        """bytes.splitlines: line boundaries are \n, \r and \r\n only"""
+        out, cur, i, d = [], [], 0, self._d
+        n = len(d)
+        while i < n:
+            c = d[i]
+            if _in(c, (10, 13)):
+                end = [c]
+                if _b(c == 13) and i + 1 < n and _b(d[i + 1] == 10):
+                    i += 1
+                    end.append(d[i])
+                out.append(type(self)(cur + (end if keepends else []))); cur = []
+            else:
+                cur.append(c)
+            i += 1
+        if cur:
+            out.append(type(self)(cur))
+        return out
+
     def hex(self, *a):
         if not self.symbolic():
             return bytes(self._d).hex(*a)
